@@ -197,6 +197,9 @@ func (f *frame) trans(e CE, env *Env) TV {
 			if !ok {
 				cfail("dereference of non-pointer %s", x.X)
 			}
+			if v.LV != nil {
+				return f.load(env.st, v.LV)
+			}
 			return f.load(env.st, f.lvOfRef(v.T, pt.Elem()))
 		}
 	case *CBin:
@@ -509,6 +512,10 @@ func (f *frame) selField(v TV, name string, env *Env) TV {
 	t := v.Ty
 	isPtr := false
 	if p, ok := t.Underlying().(*types.Pointer); ok {
+		if v.LV != nil {
+			// interior pointer argument: read the struct it points into
+			return f.selField(f.load(env.st, v.LV), name, env)
+		}
 		t = p.Elem()
 		isPtr = true
 	}
